@@ -739,6 +739,10 @@ class TArr(_plain_JArr):
             for k in ks:
                 if isinstance(k, _np.ndarray) and k.dtype == bool and _is_t(k):
                     _concretization(k, "boolean-mask indexing (the result shape depends on the values)")
+                if isinstance(k, slice) and _tainted(k):
+                    # jax: "Array slice indices must have static start/stop/step" (use lax.dynamic_slice)
+                    _concretization(next(b for b in (k.start, k.stop, k.step) if _tainted(b)),
+                                    "slice bounds (array slices need static start / stop / step)")
         key = _clamp_key(_strip(key), self.shape)
         res = _np.ndarray.__getitem__(self, key)
         return _rewrap(res, self._taint or kt) if (self._taint or kt or isinstance(res, _np.ndarray)) else res
